@@ -301,6 +301,50 @@ class Hist(Scenario):
         self.g("commit", "-q", "--allow-empty", "-m", "hunks")
         self.ops.append("commit:hunks")
 
+    def op_commit_index_then_reworded(self):
+        """The index and the work tree differ IN PLACE: changes are staged (whole files or a hunk subset), then a person rewords, in the
+        work tree only, a line the index adds (same line count, not restaged); the commit is made from the index."""
+        rng = self.rng
+        cands = [f for f in self.files if self.w.read_bytes(f) is not None]
+        rng.shuffle(cands)
+        for f in cands:
+            head = self.head()
+            hl = (self.show_lines(head, f) if head else None) or []
+            hk = set(key(l) for l in hl)
+            # finding D75: unstaged hunks that REMOVE lines of the commit (a staged line reworded next to left-out lines merges into one
+            # replacement hunk; an unstaged deletion) shift the note. While it is open the file is staged as a whole, so that the
+            # rewording is the only difference between index and work tree (a pure 1:1 hunk, which is handled).
+            if rng.random() < 0.5 and self.profile.get("unstaged_replacement_hunks", True):
+                if not self.stage_hunk_subset(f):
+                    self.g("add", "--", f)
+            else:
+                self.g("add", "--", f)
+            idx = self.w.ogit("cat-file", "blob", ":" + f, raw=True)
+            if idx.rc != 0:
+                continue
+            il = [l[:-1] if l.endswith("\r") else l for l in N.split_lines(idx.out.decode("utf-8", "replace"))]
+            cur = self.read(f)
+            own_only = not self.profile.get("intraline_cross_author", True)
+            pos = [i for i, l in enumerate(cur) if key(l) and key(l) not in hk and l in il and not self.ledger.is_decoy(l)
+                   and (not own_only or self.ledger.expected(l) == "human")]
+            if not pos:
+                continue
+            i = rng.choice(pos[:2] if rng.random() < 0.6 else pos)      # mostly a line near the top: staged lines below it must not shift
+            if f in self.pending_initial_files() and not self.profile["human_edit_on_pending_unreported"]:
+                self.w.human_ckpt([f])
+            self.n += 1
+            toks = cur[i].split(" ")
+            toks[-1] = "rw%dk%04d" % (self.index, self.n)
+            cur[i] = " ".join(toks)
+            self.ledger.record(cur[i], "human")
+            self.write(f, cur)
+            self.log.append(["edit", f, "human", "reword-in-worktree@%d (staged version differs)" % i])
+            self.stats["edits"] += 1
+            self.g("commit", "-q", "-m", "index, then reworded in the work tree")
+            self.ops.append("commit:index-then-reworded")
+            return True
+        return self.op_partial_commit()
+
     def op_commit_paths(self):
         """git commit -- <paths> / commit -a variants."""
         r = self.rng.random()
